@@ -847,7 +847,7 @@ static void item_fn(uint64_t idx)
 	} else if (it->plan == 3) {
 		for (size_t cut = 1; cut < w.n + 2; cut++) { snprintf(g_ctx, sizeof g_ctx, "%s cut=%zu len=%zu", d, cut, w.n); run_exec(s, it->cfg, it->mode, &w, w.n, cut, 0, pq); }
 	} else {	/* every pair of cuts of the length-prefixed stream */
-		size_t step = (w.n + 2) / 200 + 1;       /* every pair up to 200 octets; a stride for the few longer messages */
+		size_t step = (w.n + 2) / 120 + 1;       /* every pair up to 120 octets; a stride for longer messages (keeps one item well below the hang watchdog) */
 		for (size_t c1 = 1; c1 < w.n + 1; c1 += step) for (size_t c2 = c1 + 1; c2 < w.n + 2; c2 += step) { snprintf(g_ctx, sizeof g_ctx, "%s cuts=%zu,%zu len=%zu", d, c1, c2, w.n); run_exec(s, it->cfg, it->mode, &w, w.n, c1, c2, pq); }
 		MC_COUNT("items_all_tcp_cut_pairs");
 	}
